@@ -186,6 +186,13 @@ Theorem C14_token_address_encoding : forall a b,
 Proof. exact encode_same_addr. Qed.
 Print Assumptions C14_token_address_encoding.
 
+Example C14_token_address_families :
+  ~ same_addr ex_v4 ex_v4mapped /\ ~ same_addr ex_v4 ex_v6 /\ ~ same_addr ex_v4mapped ex_v6 /\
+  ~ same_addr ex_v4 ex_str /\ ~ same_addr ex_str ex_v6 /\ ~ same_addr ex_str (UDPAddr [49; 48; 46; 48; 46; 48; 46; 49] 0) /\
+  same_addr ex_v4 (UDPAddr [10; 0; 0; 1] 2000).
+Proof. exact address_families. Qed.
+Print Assumptions C14_token_address_families.
+
 (** A Retry token lives for tok_retryAgeFactor = 2 handshake idle timeouts. *)
 Theorem C14_retry_lifetime : forall h, maxRetryTokenAge h = 2 * h.
 Proof. exact retry_lifetime. Qed.
@@ -311,6 +318,25 @@ Theorem C14_token_invalid_handling :
     else if vs =? 1 then Out 2 false [] None 0 else Out 3 false dcid None 0.
 Proof. exact invalid_token_handling. Qed.
 Print Assumptions C14_token_invalid_handling.
+
+(** The complete decision table of handleInitialImpl's token branch: token absent or undecodable /
+    decodable and valid / invalid Retry token / invalid NEW_TOKEN token, against VerifySourceAddress. *)
+Theorem C14_token_decision_table :
+  forall (K : Type) (prot_open : K -> list Z -> list Z -> option (list Z))
+         (unmarshal : list Z -> option (rec * list Z))
+         k enc dcid a now maxTokenAge maxRetryAge vs,
+  handle K prot_open unmarshal k enc dcid a now maxTokenAge maxRetryAge vs =
+  match decode K prot_open unmarshal k enc with
+  | DTok t =>
+    if validateToken (Some t) a now maxTokenAge maxRetryAge
+    then Out 3 true (if t_isRetry t then t_odcid t else dcid)
+                    (if t_isRetry t then Some (t_rscid t) else None)
+                    (if t_isRetry t then 0 else t_rtt t)
+    else if t_isRetry t then Out 1 false [] None 0 else absent_outcome enc dcid vs
+  | _ => absent_outcome enc dcid vs
+  end.
+Proof. exact decision_table. Qed.
+Print Assumptions C14_token_decision_table.
 
 (** A connection is created with clientAddressValidated = true only from a token this key
     issued, for an address with the presenter's encoding, within its lifetime; a Retry
